@@ -10,6 +10,7 @@ import TongoModel.CellFmt
         | 'c' table              cell (canonical table, root = row 0; see CellFmt)
         | ':' name               symbol (constructor name, L/R)
         | '~'                    nil pointer / absent optional
+        | '#'                    a tlb.Magic field (its stored number is not part of the value)
 -/
 namespace Tongo.Tlb.SExp
 open Tongo Tongo.Tlb
@@ -42,6 +43,7 @@ partial def toString : Val → String
   | .cell c => "c" ++ cellToString c
   | .sym s => ":" ++ s
   | .none => "~"
+  | .magic => "#"
   | .nil => "()"
   | .cons h t => "(" ++ toString h ++ tail t
 where tail : Val → String
@@ -55,6 +57,7 @@ def parseAtom (cs : List Char) : Option Val :=
   | ['T'] => some (.bool true)
   | ['F'] => some (.bool false)
   | ['~'] => some .none
+  | ['#'] => some .magic
   | 'x' :: rest => if rest.isEmpty then some (.bytes []) else (Hex.decode (String.ofList rest)).map .bytes
   | 'b' :: rest => (Bits.ofBinString? (String.ofList rest)).map .bits
   | 'c' :: rest => (cellOfString (String.ofList rest)).map .cell
